@@ -532,7 +532,7 @@ def _sep_symbol(f, name, at, lp):
     ('sep', CONST, FIELD) if it is CONST when lp.FIELD is non-empty and '' when it is empty."""
     import re
     from ..values import value_cases, is_empty_fact
-    cs = value_cases(f, name, at)
+    cs = value_cases(f, name, at, expand=False)
     if not cs or any(c.kind != 'value' for c in cs):
         return ('unknown', name)
     if len(cs) == 1:
